@@ -13,7 +13,8 @@ the prelude) and the statement of C05, not from the explicit-stack evaluator:
   * every `{ ... }` (if/else branch, loop body per iteration, match arm, function body) is a block;
   * named functions see their parameters and the global definitions only;
   * a closure captures the variables visible where it is created, by value at creation;
-  * `+ - *` wrap at 64 bits, `/` truncates towards zero, `%` is the Euclidean remainder, `/ 0`
+  * binary operators evaluate their left operand first, then the right one;
+  * `+ - *` wrap at 64 bits, `**` raises on a negative exponent or overflow, `/` truncates towards zero, `%` is the Euclidean remainder, `/ 0`
     and `% 0` raise; comparisons are on Int; `==`/`!=` are structural; `&&`/`||` evaluate BOTH
     operands (documented: "does not currently use short-circuiting"); `^` concatenates strings;
   * `for` evaluates its list once and runs the body once per element; `break`/`continue`/`return`
@@ -344,7 +345,7 @@ class Interp:
 
     # ------------------------------------------------------------------ operators
     def binop(self, op, a, b):
-        if op in ("+", "-", "*", "/", "%", "<", "<=", ">", ">="):
+        if op in ("+", "-", "*", "/", "%", "**", "<", "<=", ">", ">="):
             self.want_int(a)
             self.want_int(b)
             if op == "+": return wrap(a + b)
@@ -363,6 +364,15 @@ class Interp:
                 if b == 0:
                     self.err("modulo by zero")
                 return a % abs(b)
+            if op == "**":
+                if b < 0:
+                    self.err("negative exponent")
+                if abs(a) > 1 and b > 64:
+                    self.err("exponent overflow")
+                r = a ** b if b <= 64 else (0 if a == 0 else (1 if a == 1 or b % 2 == 0 else -1))
+                if not MIN <= r <= MAX:
+                    self.err("exponent overflow")
+                return r
             if op == "<": return a < b
             if op == "<=": return a <= b
             if op == ">": return a > b
